@@ -134,7 +134,7 @@ let parse_outcome (cell : string -> 'c) (k : int) (s : string) : 'c outcome =
 
 let show_outcome (o : 'c outcome) : string =
   match o with
-  | Ok None -> "END" | Ok (Some r) -> "R(" ^ string_of_bytes (utf8_encode r.rid) ^ ")"
+  | Ok None -> "END" | Ok (Some r) -> "R(" ^ String.concat "" (List.map (fun c -> let c = int_of_n c in if c > 32 && c < 127 then String.make 1 (Char.chr c) else Printf.sprintf "\\x%02x" c) (utf8_encode r.rid)) ^ ")"
   | Err e -> "E" ^ string_of_int (int_of_nat e) | Panic s -> "PANIC" ^ string_of_int (int_of_nat s) | OutOfFuel -> "FUEL"
 
 let first_diff ceqb (a : 'c outcome list) (b : 'c outcome list) : string =
